@@ -5,6 +5,7 @@ from engine.rulelib import fnview
 from engine.cfg import render, strip_ref, peel, subexprs
 
 CRATES = ["lightning_signer", "vls_protocol_signer"]
+OPTIONAL_CRATES = ["vls_persist"]
 LS = "lightning_signer::"
 SVT = LS + "policy::simple_validator::SimpleValidator"
 VAL = LS + "policy::validator::Validator"
@@ -38,6 +39,9 @@ CLAIM = {
 }
 
 
+CLAIM["text"] += (" (R9.8) restart clause, where the build has a persistence layer: every persisted field of channel entry, node "
+                  "state, tracker and monitors is serialised and restored into the same slot (same obligations as C11 R11.2).")
+
 def run(ctx):
     ctx.explanation = CLAIM["text"]
     ctx.not_decided = "BOLT-3 correctness of build_htlc_transaction and the script parsers (dependency semantics)"
@@ -47,6 +51,7 @@ def run(ctx):
     r94(ctx)
     r95(ctx)
     r97(ctx)
+    r_restore(ctx)
     r_filter(ctx)
 
 
@@ -420,3 +425,8 @@ def r97(ctx):
                        "validate_sweep checked, so it also authorises a transaction paying the other outputs elsewhere",
                        where=f"{bb.file}:{ln}", sample="EcdsaSighashType::All")
         ctx.floor("R9.7", f"sighash computations in {fn}", n, 1)
+
+
+def r_restore(ctx):
+    from rules import C11 as _c11
+    _c11.shared_restore(ctx, "R9.8", "the contest delays and commitment type the sweep and HTLC bounds are computed from are what a restarted signer uses.")
